@@ -66,6 +66,7 @@ Definition agrees18 (c : c18case) : bool :=
           end
       | None => false
       end
+  | CCut msize wire a b => check_raw_model gen_tables (CRaw msize wire a) && check_raw_model gen_tables (CRaw msize wire b)
   | _ => true
   end.
 
